@@ -142,7 +142,7 @@ def run(ctx):
     cases, meta = [], []
     for spec, hist, targets in corpus_cases():
         run_one(ctx, spec, hist, targets, cases, meta, 'corpus')
-    nrand = 1000 if ctx.tier == 'quick' else 6000
+    nrand = 800 if ctx.tier == 'quick' else 6000
     for _ in range(nrand):
         spec = G.gen_spec(rng)
         hist = G.gen_history(rng, spec, rng.randint(0, 7), populate=rng.random() < 0.95)
@@ -151,6 +151,8 @@ def run(ctx):
         run_one(ctx, spec, hist, targets, cases, meta, 'random')
     nex = 0
     for k, (spec, pop) in enumerate(EXH_SPECS):
+        if ctx.tier == 'quick' and k not in (0, 3, 4):
+            continue
         L = 3 if (ctx.tier == 'thorough' and k in (0, 3, 4)) else 2
         for evs in G.exhaustive_histories(4, L):
             run_one(ctx, spec, [pop] + [list(e) for e in evs], [[1, True]], cases, meta, 'exhaustive')
